@@ -321,6 +321,8 @@ func c01Neighbours(r *rt.Rec, rng *rand.Rand, n int) {
 func c01Bulk(r *rt.Rec, rng *rand.Rand, which int) {
 	ctx := context.Background()
 	sizes := [][]int{{1000, 2000, 2001}, {1024, 2048, 3000}, {999, 4096, 5000}, {1, 4000, 1999 + rng.Intn(3)}}[which%4]
+	// and sizes that are no multiple of anything in particular
+	sizes = append(sizes, 2049+rng.Intn(7), 4097+rng.Intn(7), 2050+rng.Intn(4000))
 	for _, n := range sizes {
 		st := memory.NewStore()
 		g, _ := st.NewGraph(ctx, "?g")
